@@ -282,6 +282,7 @@ def run_library(spec, acc, api, con):
             lib_case(fname, [x if callable(x) else copy.deepcopy(x) for x in args], True, acc, api, con, spy)
         data_functions_without_options(acc, api)
         data_functions_report_failures(acc, api)
+        data_functions_fail_whole(acc, api)
         script_function_failures(acc, api)
         fatal_statement_errors(acc, api)
         option_shapes(acc, api)
@@ -727,6 +728,58 @@ def data_functions_report_failures(acc, api):
                         acc.violation('failure-not-reported-in-debug-mode', f'{label} with expression {inner!r}, variables={variables!r}: {len(lines)} report lines'
                                       + (f' for {len(calls)} failing calls' if fname == 'boom' else '') + f'; log={logs[:3]!r:.300}', case)
                         return
+
+
+def data_functions_fail_whole(acc, api):
+    """A data function that cannot finish (a row that is not an object, an undefined function in its expression) FAILS as a whole: the
+    script call yields null and is reported in debug mode, the documented fatal error stays fatal - never a partial table."""
+    import bare_script
+    rt_err = api[2]
+    for fn_text, python_call in (("dataFilter(dd, 'a > 0'{vs})", lambda b, rows, vs, o: b.filter_data(rows, 'a > 0', vs, o)),
+                                 ("dataCalculatedField(dd, 'cc', 'a + 1'{vs})", lambda b, rows, vs, o: b.add_calculated_field(rows, 'cc', 'a + 1', vs, o)),
+                                 ("dataJoin(dd, dd, 'a'{vs})", lambda b, rows, vs, o: b.join_data(rows, rows, 'a', None, False, vs, o))):
+        for variables in (None, {'zz': 1}):
+            rows = [{'a': 1}, {'a': 2}, 5, {'a': 3}]
+            logs = []
+            g = dict(api[1])
+            g.update({'dd': rows, 'vv': variables})
+            o = {'globals': g, 'logFn': logs.append, 'debug': True}
+            vs = '' if variables is None else (', null, false, vv' if fn_text.startswith('dataJoin') else ', vv')
+            text = 'return ' + fn_text.replace('{vs}', vs)
+            case = {'text': text, 'rows': 'third row is the number 5', 'variables': variables}
+            acc.case(('data-fail-whole', text), True)
+            acc.count('data_function_whole_failure_checks')
+            try:
+                res = bare_script.execute_script(bare_script.parse_script(text), o)
+            except rt_err:
+                res = None
+            except Exception as exc:  # pylint: disable=broad-except
+                acc.violation('host-exception-escaped', f'{text}: {type(exc).__name__}: {exc}', case)
+                continue
+            if res is not None:
+                acc.violation('failure-value', f'{text} over rows with a non-object row returned {res!r:.200} (a failed call yields null)', case)
+            elif not any(l.startswith('BareScript: Function "data') for l in logs):
+                acc.violation('failure-not-reported-in-debug-mode', f'{text}: log={logs[:3]!r:.300}', case)
+            # the python API: the error of the bad row comes out (whatever its type) - never a partial result
+            try:
+                out = python_call(bare_script, [{'a': 1}, 5, {'a': 3}], variables, {'globals': dict(api[1])})
+                acc.violation('failure-value', f'python API of {fn_text.split("(")[0]} returned {out!r:.200} for rows with a non-object row', case)
+            except Exception:  # pylint: disable=broad-except
+                pass
+        # an undefined function in the expression is the documented fatal error, through the script function and the python API
+        for how in ('script', 'python'):
+            acc.count('data_function_whole_failure_checks')
+            try:
+                if how == 'script':
+                    res = bare_script.execute_script(bare_script.parse_script('return ' + fn_text.replace("'a > 0'", "'nosuch(a)'").replace("'a + 1'", "'nosuch(a)'").replace("'a'", "'nosuch(a)'").replace('{vs}', '')),
+                                                     {'globals': {'dd': [{'a': 1}, {'a': 2}]}})
+                else:
+                    res = python_call(bare_script, [{'a': 1}], None, {'globals': {}}) if False else bare_script.filter_data([{'a': 1}], 'nosuch(a)', None, {'globals': {}})
+                acc.violation('fatal-error-swallowed', f'{fn_text.split("(")[0]} ({how}) with an undefined function in its expression returned {res!r:.200}', {'fn': fn_text, 'how': how})
+            except rt_err:
+                pass
+            except Exception as exc:  # pylint: disable=broad-except
+                acc.violation('host-exception-escaped', f'{fn_text.split("(")[0]} ({how}) with an undefined function: {type(exc).__name__}: {exc}', {'fn': fn_text, 'how': how})
 
 
 # ------------------------------------------------------------------ injected host faults (fault enumeration)
